@@ -29,6 +29,8 @@ pub trait DynColl<T: Elem>: Send + Sync {
     /// `'L'` or `'V'`.
     fn tag(&self) -> char;
     fn clone_box(&self) -> Boxed<T>;
+    /// An independently allocated collection with the same contents (SSZ round trip): shares no node with `self`.
+    fn fresh_copy(&self) -> Option<Boxed<T>>;
     /// Is the update map backed by a `VecMap`?
     fn vec_backed(&self) -> bool;
 
@@ -115,6 +117,10 @@ macro_rules! common_methods {
         }
         fn clone_box(&self) -> Boxed<T> {
             Box::new(self.clone())
+        }
+        fn fresh_copy(&self) -> Option<Boxed<T>> {
+            let b: Self = Self::from_ssz_bytes(&self.as_ssz_bytes()).ok()?;
+            Some(Box::new(b))
         }
         fn vec_backed(&self) -> bool {
             U::VEC_BACKED
